@@ -362,6 +362,12 @@ def _optional_attrs(ctx):
             gs = [norm(t) for t, pol in guards(n) if pol]
             # dominated by an assignment from a non-None source in the same function?
             ok = any(_none_excluding(g, a) for g in gs)
+            if not ok:
+                # the same facts in canonical form (conditions given a name first, De Morgan)
+                for _e, txt, pol in literals(guards(n)):
+                    t_ = txt.replace(' ', '')
+                    if (t_.startswith(f"self.{a}in[None") or t_.startswith(f"self.{a}in(None") or t_ == f"self.{a}isNone") and not pol:
+                        ok = True
             ctx.check(ok or not believes, 'EXC', f"{m.qualname}: {what} excludes None",
                       'guarded' if ok else 'no site believes it can be None',
                       f"`self.{a}` starts as None (and sibling code tests for that), but `{norm(enclosing_stmt(n))[:70]}` "
